@@ -52,6 +52,10 @@ type aggRec struct {
 	// Layout: the order in which the exporter that sent this record lists the elements (records are
 	// looked at by element name; two exporters, or one exporter after a template change, need not agree)
 	Layout int
+	// Unres: a record of the source node that names no Pod at all (the node could not resolve the
+	// source Pod). The process tells the reporting node from the Pod names, so for such a record only
+	// one statement is unambiguous: it and a record of the destination node are the two sides.
+	Unres bool
 }
 
 type nodeAgg struct {
@@ -139,6 +143,12 @@ func (m *aggModel) ingest(r aggRec, now time.Time) bool {
 		return false
 	}
 	f := m.Flows[r.Key]
+	if r.Unres && f != nil && !f.Ready && f.N[r.Node].Seen {
+		// a second nameless record before the other side was seen: whether those two are "both sides"
+		// cannot be told from the records, and the statement does not say (treated like a record
+		// outside the contract: not sent)
+		return false
+	}
 	nodes := []int{r.Node}
 	if r.Node == nodeSingle {
 		nodes = []int{nodeSrc, nodeDst}
